@@ -6,7 +6,7 @@ policy). The server is an ordinary paramiko server transport; the *observation* 
 client->server byte stream recorded by the in-memory link, decoded by the independent reference
 (vlib.peers.Tap + vlib.refssh with the key epochs recorded at the client's NEWKEYS).
 
-Three sub-domains (case["mode"]):
+Four sub-domains (case["mode"]):
  lifecycle  an auth_* call issued from a second thread at a generated point of the handshake:
             before start_client, after 0..4 of the server's handshake chunks (banner, KEXINIT,
             KEX reply, NEWKEYS) have been let through by the link, after everything, after close.
@@ -16,6 +16,12 @@ Three sub-domains (case["mode"]):
             the looked-up name, the bare host for a non-default port, another port, another host;
             the server's key / a different key of the same type / other types), system or local
             store, policy Reject / AutoAdd / Warning / custom accepting / custom raising.
+ history    ONE SSHClient object (system store + user store loaded from generated known_hosts texts:
+            plain and hashed names of two hosts x three ports, 7 keys) living through a generated
+            sequence of 2-6 events: connect(host, port, server key set, policy, auth method) - every
+            connect to a fresh server - and lookups on either HostKeys object (lookup / check / in /
+            keys) with generated names. The model of "known" is the union of both stores plus what an
+            AutoAdd policy added in earlier connects; the oracle below is evaluated for every connect.
 
 Oracle (model of the statement, computed from the generated configuration and from the host key
 blob the server put on the wire - parsed from the server->client plaintext, not asked from paramiko):
@@ -47,10 +53,13 @@ PROPERTY = "C17"
 LEVEL = "exploration"
 THOROUGH_WORKERS = 16
 RULE = (
-    "hypothesis-generated configurations in three sub-domains: (lifecycle) auth method x transport class x handshake stage "
+    "hypothesis-generated configurations in four sub-domains: (lifecycle) auth method x transport class x handshake stage "
     "(9 stages, the link holding back the server's chunks); (connect) server host key set x hostkey argument in "
     "{same, sibling of same type, other type, none} x auth method; (sshclient) server host key set x port x 0..4 known_hosts lines "
-    "(name kind x hashed x key) x store x 5 policies x auth method; quick enumerates all lifecycle stage x method x class "
+    "(name kind x hashed x key) x store x 5 policies x auth method; (history) one SSHClient with a system and a user store "
+    "(0..3 lines each: 1-2 names of 2 hosts x 3 ports, plain or hashed, 7 keys) driven through 2..6 events in generated order - "
+    "connects (host x port x server key set x policy x method, each to a fresh server) and HostKeys lookups (4 APIs x store x name) - "
+    "with the oracle evaluated per connect against the union of both stores plus earlier AutoAdd additions; quick enumerates all lifecycle stage x method x class "
     "combinations; non-trivial = the model forbids sending (mismatch / rejected unknown host), or the auth call happens before "
     "the key exchange finished, or an unknown host is accepted by a policy; distinct by configuration"
 )
@@ -110,6 +119,40 @@ sshclient_st = st.fixed_dictionaries(
         "store": st.sampled_from(["system", "local"]),
         "policy": st.sampled_from(["reject", "autoadd", "warning", "accept", "raise"]),
         "method": st.sampled_from(["password", "publickey"]),
+        "secret": secret,
+    }
+)
+
+HOSTS = [HOST, OTHERHOST]
+CONNECT_PORTS = [22, 2222]
+ENTRY_PORTS = [22, 2222, 2200]
+name_st = st.tuples(st.integers(0, len(HOSTS) - 1), st.sampled_from(ENTRY_PORTS)).map(list)
+hentry_st = st.fixed_dictionaries({"names": st.lists(name_st, min_size=1, max_size=2, unique_by=tuple), "hashed": st.booleans(), "key": st.sampled_from(ALL_KEYS + SERVER_KEY_TYPES)})
+connect_ev = st.fixed_dictionaries(
+    {
+        "op": st.just("connect"),
+        "host": st.integers(0, len(HOSTS) - 1),
+        "port": st.sampled_from(CONNECT_PORTS),
+        "server_keys": server_keys,
+        "policy": st.sampled_from(["reject", "autoadd", "warning", "accept", "raise"]),
+        "method": st.sampled_from(["password", "publickey"]),
+    }
+)
+lookup_ev = st.fixed_dictionaries(
+    {
+        "op": st.just("lookup"),
+        "store": st.sampled_from(["system", "user"]),
+        "host": st.integers(0, len(HOSTS) - 1),
+        "port": st.sampled_from(ENTRY_PORTS),
+        "api": st.sampled_from(["lookup", "check", "contains", "keys"]),
+        "key": st.sampled_from(SERVER_KEY_TYPES),
+    }
+)
+history_st = st.fixed_dictionaries(
+    {
+        "mode": st.just("history"),
+        "stores": st.fixed_dictionaries({"system": st.lists(hentry_st, max_size=3), "user": st.lists(hentry_st, max_size=3)}),
+        "events": st.lists(st.one_of(connect_ev, connect_ev, lookup_ev), min_size=2, max_size=6).filter(lambda ev: any(e["op"] == "connect" for e in ev)),
         "secret": secret,
     }
 )
@@ -519,6 +562,232 @@ def run_sshclient(ctx, case, classes):
         link.close()
 
 
+# ----------------------------------------------------------------------------- SSHClient histories
+
+
+def abs_name(n):
+    return lookup_name(HOSTS[n[0]], n[1])
+
+
+def store_text(entries, tag):
+    lines = []
+    for i, e in enumerate(entries):
+        names = [abs_name(n) for n in e["names"]]
+        if e["hashed"]:
+            names = [hash_name(n, hashlib.sha1(("salt-%s-%d-%s" % (tag, i, n)).encode()).digest()) for n in names]
+        blob = A.pub_blob(e["key"])
+        ktype = R.Reader(blob).string().decode()
+        lines.append("%s %s %s" % (",".join(names), ktype, base64.b64encode(blob).decode()))
+    return "\n".join(lines) + ("\n" if lines else "")
+
+
+class _Capture:
+    """Stands in for ctx while a history runs: the first oracle failure is kept, not reported
+    (the driver reports it with the reduced history)."""
+
+    def __init__(self):
+        self.v = None
+
+    def violation(self, clause, bucket, case, detail):
+        if self.v is None:
+            self.v = (clause, bucket, detail)
+        return False
+
+
+def make_policy_obj(paramiko, pol, marks, mark):
+    class Accept(paramiko.MissingHostKeyPolicy):
+        def missing_host_key(self, c, hostname, key):
+            marks["called"] = (hostname, key.asbytes())
+            mark()
+
+    class Raise(paramiko.MissingHostKeyPolicy):
+        def missing_host_key(self, c, hostname, key):
+            marks["called"] = (hostname, key.asbytes())
+            raise paramiko.SSHException("verif policy says no")
+
+    def wrap(base):
+        class P(base):
+            def missing_host_key(self, c, hostname, key):
+                marks["called"] = (hostname, key.asbytes())
+                try:
+                    return base.missing_host_key(self, c, hostname, key)
+                finally:
+                    mark()
+
+        return P()
+
+    return {"reject": lambda: wrap(paramiko.RejectPolicy), "autoadd": lambda: wrap(paramiko.AutoAddPolicy), "warning": lambda: wrap(paramiko.WarningPolicy), "accept": Accept, "raise": Raise}[pol]()
+
+
+def execute_history(ctx, case, classes):
+    """Runs the events on one SSHClient. Returns dict(violation=(clause, bucket, detail)|None,
+    at=index of the event that showed it, nontrivial=bool)."""
+    import paramiko
+
+    out = {"violation": None, "at": -1, "nontrivial": False}
+    cap = _Capture()
+    client = paramiko.SSHClient()
+    d = ctx.tmpdir()
+    paths = {}
+    for tag in ("system", "user"):
+        paths[tag] = os.path.join(d, "kh_%s_%d_%d" % (tag, ctx.evaluations, threading.get_ident()))
+        with open(paths[tag], "w") as f:
+            f.write(store_text(case["stores"][tag], tag))
+    client.load_system_host_keys(paths["system"])
+    client.load_host_keys(paths["user"])
+    stores = {"system": client._system_host_keys, "user": client.get_host_keys()}
+    # model of "known to this SSHClient": (plain names, key blob) of every line of both stores, plus AutoAdd additions
+    known = [(set(abs_name(n) for n in e["names"]), A.pub_blob(e["key"])) for tag in ("system", "user") for e in case["stores"][tag]]
+    hashed_in = {tag: any(e["hashed"] for e in case["stores"][tag]) for tag in ("system", "user")}
+    names_seen = {"system": set(), "user": set()}  # names each HostKeys object has been asked about so far
+    if case["stores"]["system"] and case["stores"]["user"]:
+        classes.add("history:both-stores-populated")
+    if any(hashed_in.values()) and any(not e["hashed"] for tag in ("system", "user") for e in case["stores"][tag]):
+        classes.add("history:hashed-and-plain-lines-mixed")
+    nconn = 0
+    auto = set()  # names an AutoAdd policy has added during this history
+    try:
+        for i, ev in enumerate(case["events"]):
+            out["at"] = i
+            want = lookup_name(HOSTS[ev["host"]], ev["port"])
+            if ev["op"] == "lookup":
+                hk = stores[ev["store"]]
+                names_seen[ev["store"]].add(want)
+                if ev["api"] == "lookup":
+                    hk.lookup(want)
+                elif ev["api"] == "check":
+                    hk.check(want, pool_key(ev["key"]))
+                elif ev["api"] == "contains":
+                    want in hk
+                else:
+                    hk.keys()
+                classes.add("history:lookup-api:" + ev["api"])
+                continue
+            nconn += 1
+            for tag in ("system", "user"):
+                if hashed_in[tag] and names_seen[tag] - {want}:
+                    classes.add("history:hashed-line-already-compared-with-another-name")
+            names_seen["system"].add(want)
+            names_seen["user"].add(want)
+            link, _unused, ts = peers.make_pair(client_cls=peers.VTransport, server_cls=peers.VTransport, host_keys=tuple(ev["server_keys"]))
+            _unused.close()
+            marks = {}
+
+            def mark(marks=marks, link=link):
+                marks["n"] = len(link.ab.sent)
+
+            tc = None
+            try:
+                client.set_missing_host_key_policy(make_policy_obj(paramiko, ev["policy"], marks, mark))
+                start_server(ts, good_server(case))
+                kw = {"password": password_of(case)} if ev["method"] == "password" else {"pkey": pool_key(CLIENT_KEY)}
+                raised = None
+                before = client.get_transport()
+                with warnings.catch_warnings():
+                    warnings.simplefilter("ignore")
+                    try:
+                        client.connect(HOSTS[ev["host"]], port=ev["port"], username=USER, sock=link.a, allow_agent=False, look_for_keys=False, timeout=T, banner_timeout=T, auth_timeout=T, transport_factory=peers.VTransport, **kw)
+                    except Exception as e:
+                        raised = e
+                tc = client.get_transport()
+                if tc is before:
+                    tc = None
+                settle(link, tc, ts)
+                # ---- model, for this connect
+                matching = [blob for names, blob in known if want in names]
+                presented = presented_key(link)
+                forbidden = None
+                policy_mark = None
+                pol = ev["policy"]
+                if matching:
+                    if presented is None or presented not in matching:
+                        forbidden = "known-host-key-mismatch"
+                    classes.add("history:known:" + ("mismatch" if forbidden else "match"))
+                    if want in auto:
+                        classes.add("history:known-through-earlier-autoadd")
+                else:
+                    if pol in ("reject", "raise"):
+                        forbidden = "unknown-host-policy-" + pol
+                    else:
+                        policy_mark = marks.get("n")
+                        if policy_mark is None and raised is None:
+                            out["violation"] = (
+                                "policy-not-consulted-for-unknown-host",
+                                "history:" + pol,
+                                "event %d: host unknown to the client (no known_hosts line of either store, nor an earlier AutoAdd, names %r) but missing_host_key() was never called and connect() succeeded" % (i, want),
+                            )
+                            return out
+                        if policy_mark is None:
+                            policy_mark = 0
+                        out["nontrivial"] = True
+                        if pol == "autoadd" and "called" in marks and presented is not None:
+                            known.append(({want}, presented))
+                            auto.add(want)
+                    classes.add("history:unknown:" + pol)
+                if forbidden:
+                    out["nontrivial"] = True
+                if nconn > 1:
+                    classes.add("history:connect-number:%d" % min(nconn, 4))
+                ok, summ = check_stream(cap, case, link, tc, forbidden, raised, policy_mark, "history")
+                if not ok:
+                    c, b, dt = cap.v
+                    out["violation"] = (c, b, "event %d (%r), names this client was asked about before: system %r user %r: %s" % (i, ev, sorted(names_seen["system"] - {want}), sorted(names_seen["user"] - {want}), dt))
+                    return out
+                if not forbidden:
+                    if summ["encrypted_50"]:
+                        classes.add("control:encrypted-userauth-seen")
+                    else:
+                        classes.add("allowed-but-no-userauth:%s" % type(raised).__name__)
+            finally:
+                peers.shutdown(*([tc] if tc is not None else []), ts)
+                link.close()
+        classes.add("history:connects=%d" % min(nconn, 4))
+        return out
+    finally:
+        try:
+            client.close()
+        except Exception:
+            pass
+
+
+def run_history(ctx, case, classes):
+    res = execute_history(ctx, case, classes)
+    v = res["violation"]
+    if v is None:
+        return res["nontrivial"]
+    best = dict(case, events=case["events"][: res["at"] + 1])
+    if not ctx.replaying:
+        # reduce: drop earlier events, then known_hosts lines, as long as the same signature shows
+        def still(cand):
+            r = execute_history(ctx, cand, set())
+            return r["violation"] is not None and r["violation"][:2] == v[:2] and r["at"] == len(cand["events"]) - 1
+
+        j = 0
+        while j < len(best["events"]) - 1:
+            cand = dict(best, events=best["events"][:j] + best["events"][j + 1 :])
+            if still(cand):
+                best = cand
+            else:
+                j += 1
+        for tag in ("system", "user"):
+            j = 0
+            while j < len(best["stores"][tag]):
+                st_ = dict(best["stores"])
+                st_[tag] = st_[tag][:j] + st_[tag][j + 1 :]
+                cand = dict(best, stores=st_)
+                if still(cand):
+                    best = cand
+                else:
+                    j += 1
+        r = execute_history(ctx, best, set())
+        if r["violation"] is not None and r["violation"][:2] == v[:2]:
+            v = r["violation"]
+        else:
+            best = dict(case, events=case["events"][: res["at"] + 1])
+    ctx.violation(v[0], v[1], best, v[2])
+    return True
+
+
 # ----------------------------------------------------------------------------- driver
 
 
@@ -530,6 +799,8 @@ def run_case(ctx, case, record=True):
             nontrivial = run_lifecycle(ctx, case, classes)
         elif case["mode"] == "connect":
             nontrivial = run_connect(ctx, case, classes)
+        elif case["mode"] == "history":
+            nontrivial = run_history(ctx, case, classes)
         else:
             nontrivial = run_sshclient(ctx, case, classes)
     finally:
@@ -557,6 +828,7 @@ def run(ctx):
         run_case(ctx, c)
     ctx.note("lifecycle_combinations_enumerated", len(enum))
     ctx.explore(case_st, lambda c: run_case(ctx, c), ctx.scale(260, 2200), shrink=False)
+    ctx.explore(history_st, lambda c: run_case(ctx, c), ctx.scale(140, 1200), shrink=False, seed_offset=1)
     if ctx.classes.get("control:encrypted-userauth-seen", 0) == 0 and not ctx.budget_hit and not ctx.unknown:
         raise core.HarnessError("no accepted configuration ever showed an encrypted USERAUTH_REQUEST: the Tap would be vacuous")
 
